@@ -1,1 +1,636 @@
-fn main() {}
+//! mon-pool — runtime monitor of property C18
+//! "A pooled Merkle-map cache never serves data from a superseded generation".
+//!
+//! Code under test: `mithril_resource_pool::ResourcePool` of /repo's working tree (linked by path),
+//! driven by harness callers that do what `MithrilProverService` does (acquire ... give_back_resource_pool_item
+//! / drop on the error path; compute_cache = discriminant()+1, set_discriminant, clear, give_back_resource x size).
+//! See engine.rs for the event log, the workloads and the oracle.
+mod engine;
+
+use engine::*;
+use rand_core::RngCore;
+use serde_json::{json, Value};
+use std::collections::{BTreeMap, HashSet};
+use std::sync::Mutex;
+use vcore::{Monitor, Tier};
+
+const RULE: &str = "L1x = every operation sequence over the alphabet {acquire, give_item:0|1, drop:0|1, raw_prepare, raw_give:0, refresh, reset_available, count} up to the length given in coverage.l1_exhaustive_max_len, on pools of size 1-2 (empty as in the prover, or prefilled), size 3 up to a shorter length; L1r = seeded random histories of 4-32 operations on pools of size 1-4 (3 give-back style profiles); every history ends with a count() and a drain (acquire until empty) so that whatever the pool would serve next is observed. L2 = OS-thread runs: 1-11 workers + 1 refresher (exactly compute_cache's call sequence, paced by the global event counter), pool size 1-4, seeded mix of acquire (timeouts 0-1ms) / hold across operations / give_back_resource_pool_item / drop / raw give_back_resource(own tag) / count / reset_available_resources; phase L2a without any hook installed, phase L2b with the seeded delay table (yield, spin or sleep of 0-200us at the four named points of resource_pool.rs, per-thread PRNG). W = wake-up scenarios (wall clock, S4 only). Oracle over the merged log (one SeqCst counter): S1 an acquire CALLED after refresh_complete(g) returns a resource whose generation tag >= g; S2 holder intervals [acquire_return, give_back_call] of one resource id never overlap; S3 every count() sample and the count at quiescence <= size; S4 counter only. A case is non-trivial when the oracle could have fired in it: L1 = a history in which a resource of a superseded generation is given back (any style) or a raw resource built for a superseded generation is pushed; L2 = a refresh window with events of other threads strictly inside it or followed by give-backs of items of the superseded generation. distinct = distinct operation sequence (L1) / distinct hash of the (event kind, thread, style) sequence from 4 events before refresh_begin to 4 events after refresh_complete (L2).";
+
+const ASSUMPTIONS: &[&str] = &[
+    "one refresher at a time (compute_cache is not re-entered concurrently), as in the aggregator's state machine",
+    "resources are harness values tagged with the generation the refresher built them for; raw give-backs by workers carry the generation they read when they built the resource",
+    "stamps: *_call before the pool call, *_return after it; only orderings implied by return < call are used (happens-before), acquires overlapping a refresh may see either generation",
+    "S4 (bounded wake-up) is measured on the wall clock with 1 s slack and can only make the run inconclusive, never a violation",
+    "interleavings are those the OS scheduler (plus seeded delays at the hook points) produced: sampled, not exhaustive; L1x is exhaustive for its stated bound only",
+];
+
+fn main() {
+    let args = vcore::parse_args();
+    vcore::install_panic_hook();
+    if args.prop != "C18" {
+        eprintln!("mon-pool: unknown property {}", args.prop);
+        std::process::exit(2);
+    }
+    let mut mon = Monitor::new(&args);
+    mon.level = "exploration".into();
+    if let Some(p) = args.replay.clone() {
+        replay(&mut mon, &p);
+        mon.finish(RULE, ASSUMPTIONS, 0);
+    }
+    let threads = vcore::default_threads();
+    let hooks_compiled = set_process_hook(false);
+    mon.extra.insert("delay_hooks_compiled".into(), json!(hooks_compiled));
+
+    phase_l1_exhaustive(&mut mon, threads);
+    phase_l1_random(&mut mon, threads);
+    phase_wake(&mut mon);
+
+    // L2a: no hook installed at all
+    let l2_par = std::env::var("VERIF_L2_PAR").ok().and_then(|s| s.parse().ok()).unwrap_or((threads * 3 / 8).max(2));
+    mon.extra.insert("l2_parallel_runs".into(), json!(l2_par));
+    phase_l2(&mut mon, "L2a", false, l2_par);
+    if hooks_compiled {
+        set_process_hook(true);
+        phase_l2(&mut mon, "L2b", true, l2_par);
+        set_process_hook(false);
+    } else {
+        mon.inconclusive("the pool was built without --cfg mithril_verif: no delay hook points, phase L2b (seeded delays) not run");
+    }
+    if mon.tier == Tier::Thorough && std::env::var("VERIF_NO_L3").is_err() {
+        phase_l3(&mut mon);
+    }
+    mon.extra.insert("maxima".into(), json!(*MAXIMA.lock().unwrap()));
+    let total_ops = mon.counter("ops.pool_calls");
+    mon.extra.insert("pool_operations".into(), json!(total_ops));
+    mon.finish(RULE, ASSUMPTIONS, 50);
+}
+
+// ---------------------------------------------------------------------------------------------
+// helpers
+
+/// maxima cannot live in Monitor counters (shard monitors are merged by summing): process-wide map,
+/// touched once per run / history, written into evidence.coverage.maxima at the end
+static MAXIMA: Mutex<BTreeMap<String, u64>> = Mutex::new(BTreeMap::new());
+
+fn note_max(name: String, v: u64) {
+    let mut m = MAXIMA.lock().unwrap();
+    let e = m.entry(name).or_insert(0);
+    if v > *e {
+        *e = v;
+    }
+}
+
+fn merge_counters(mon: &mut Monitor, prefix: &str, rep: &Report) {
+    for (k, v) in &rep.counters {
+        let name = format!("{prefix}.{k}");
+        if k.contains(".max_") {
+            note_max(name, *v);
+        } else {
+            mon.count_n(&name, *v);
+        }
+    }
+}
+
+fn l1_json(case: &L1Case) -> Value {
+    json!({
+        "level": "L1",
+        "size": case.size,
+        "prefilled": case.prefilled,
+        "ops": case.ops.iter().map(|o| o.code()).collect::<Vec<_>>(),
+    })
+}
+
+fn log_lines(log: &[Ev], max: usize) -> Vec<String> {
+    let mut v: Vec<String> = log.iter().take(max).map(|e| e.to_string()).collect();
+    if log.len() > max {
+        v.push(format!("... ({} events in total)", log.len()));
+    }
+    v
+}
+
+/// run one L1 history, feed the monitor; returns the signatures that fired
+fn eval_l1(mon: &mut Monitor, prefix: &str, case: &L1Case, shrink: bool, may_sample: bool) -> Vec<&'static str> {
+    let out = run_l1(case);
+    let rep = check(&out.log, case.size);
+    mon.eval();
+    mon.count_n("ops.pool_calls", out.ops);
+    merge_counters(mon, prefix, &rep);
+    for e in &out.errors {
+        mon.inconclusive(&format!("harness/pool error in an L1 history: {e}"));
+    }
+    let stale = rep.get("stale_give_back_attempts.item") + rep.get("stale_give_back_attempts.drop") + rep.get("stale_give_back_attempts.raw");
+    if stale > 0 {
+        mon.nontrivial_str(&case.key());
+        mon.count(&format!("{prefix}.nontrivial_histories"));
+        if may_sample && mon.wants_sample() && case.ops.len() >= 4 && mon.counter("samples.l1") < 1 {
+            mon.count("samples.l1");
+            mon.sample(json!({"case": l1_json(case), "events": log_lines(&out.log, 40),
+                "stale_give_back_attempts": stale, "findings": rep.findings.iter().map(|f| f.sig).collect::<Vec<_>>()}));
+        }
+    }
+    let mut fired: Vec<&'static str> = vec![];
+    for f in &rep.findings {
+        if fired.contains(&f.sig) {
+            continue;
+        }
+        fired.push(f.sig);
+        let (wcase, wout) = if shrink { shrink_l1(case, f.sig) } else { (case.clone(), None) };
+        let (what, log) = match wout {
+            Some((what, log)) => (what, log),
+            None => (f.what.clone(), log_lines(&out.log, 80)),
+        };
+        mon.count(&format!("{prefix}.violating_histories.{}", f.sig));
+        let mut rj = l1_json(&wcase);
+        rj["events"] = json!(log);
+        if shrink {
+            rj["shrunk_from"] = l1_json(case);
+        }
+        mon.violation(f.sig, &format!("[L1 single-threaded, {} ops] {what}", wcase.ops.len()), rj);
+    }
+    fired
+}
+
+/// greedy removal of operations while the same signature still fires
+fn shrink_l1(case: &L1Case, sig: &'static str) -> (L1Case, Option<(String, Vec<String>)>) {
+    let mut cur = case.clone();
+    let mut best: Option<(String, Vec<String>)> = None;
+    loop {
+        let mut improved = false;
+        let mut i = 0;
+        while i < cur.ops.len() {
+            let mut cand = cur.clone();
+            cand.ops.remove(i);
+            let out = run_l1(&cand);
+            let rep = check(&out.log, cand.size);
+            if let Some(f) = rep.findings.iter().find(|f| f.sig == sig) {
+                best = Some((f.what.clone(), log_lines(&out.log, 80)));
+                cur = cand;
+                improved = true;
+            } else {
+                i += 1;
+            }
+        }
+        if !improved {
+            break;
+        }
+    }
+    (cur, best)
+}
+
+// ---------------------------------------------------------------------------------------------
+// L1x: exhaustive small scope
+
+fn nth_sequence(len: usize, mut idx: u64) -> Vec<Op> {
+    let k = L1_ALPHABET.len() as u64;
+    let mut ops = vec![Op::Acquire; len];
+    for slot in ops.iter_mut().rev() {
+        *slot = L1_ALPHABET[(idx % k) as usize];
+        idx /= k;
+    }
+    ops
+}
+
+fn phase_l1_exhaustive(mon: &mut Monitor, threads: usize) {
+    let max_len: usize = std::env::var("VERIF_L1X_LEN").ok().and_then(|s| s.parse().ok()).unwrap_or(mon.tier.pick(5, 6));
+    let max_len_size3 = max_len.saturating_sub(1);
+    // tasks ordered by length first, so that the shortest witnesses are the ones kept
+    struct Task {
+        size: usize,
+        prefilled: bool,
+        len: usize,
+        from: u64,
+        to: u64,
+    }
+    let mut tasks: Vec<Task> = vec![];
+    let k = L1_ALPHABET.len() as u64;
+    for len in 1..=max_len {
+        let total = k.pow(len as u32);
+        for (size, prefilled) in [(1, true), (1, false), (2, true), (2, false), (3, true), (3, false)] {
+            if size == 3 && len > max_len_size3 {
+                continue;
+            }
+            let chunk = 20_000u64;
+            let mut from = 0;
+            while from < total {
+                let to = (from + chunk).min(total);
+                tasks.push(Task { size, prefilled, len, from, to });
+                from = to;
+            }
+        }
+    }
+    let n = tasks.len() as u64;
+    vcore::run_shards(mon, n, threads, |s, m| {
+        let t = &tasks[s as usize];
+        for idx in t.from..t.to {
+            let case = L1Case { size: t.size, prefilled: t.prefilled, ops: nth_sequence(t.len, idx) };
+            eval_l1(m, "L1x", &case, false, t.len == 4 && t.size == 2 && t.from == 0);
+        }
+    });
+    mon.extra.insert("l1_exhaustive_max_len".into(), json!(max_len));
+    mon.extra.insert("l1_exhaustive_max_len_size3".into(), json!(max_len_size3));
+    mon.extra.insert("l1_exhaustive_alphabet".into(), json!(L1_ALPHABET.iter().map(|o| o.code()).collect::<Vec<_>>()));
+}
+
+fn phase_l1_random(mon: &mut Monitor, threads: usize) {
+    let (shards, per) = mon.tier.pick((16u64, 400usize), (64, 4000));
+    vcore::run_shards(mon, shards, threads, |s, m| {
+        let mut rng = m.rng("l1-random", s);
+        for _ in 0..per {
+            let case = gen_l1_case(&mut rng);
+            // shrink only the first few witnesses of a shard (each shrink re-runs the history many times)
+            let shrink = m.counter("L1r.shrunk") < 3;
+            let fired = eval_l1(m, "L1r", &case, shrink, s == 0);
+            if shrink && !fired.is_empty() {
+                m.count("L1r.shrunk");
+            }
+        }
+    });
+}
+
+// ---------------------------------------------------------------------------------------------
+// W: wake-up scenarios (S4)
+
+fn phase_wake(mon: &mut Monitor) {
+    let n = mon.tier.pick(160u64, 1200);
+    let missed_total = std::sync::atomic::AtomicU64::new(0);
+    vcore::run_shards(mon, 8, 4, |s, m| {
+        let mut rng = m.rng("wake", s);
+        for i in 0..n / 8 {
+            if missed_total.load(std::sync::atomic::Ordering::Relaxed) >= 3 {
+                m.count("W.skipped_after_3_misses");
+                continue;
+            }
+            let size = 1 + below(&mut rng, 3) as usize;
+            let cfg = WakeCfg {
+                size,
+                waiters: 1 + below(&mut rng, size as u64) as usize,
+                variant: below(&mut rng, 3) as u8,
+                waiter_timeout_ms: 1500,
+                slack_ms: 1000,
+            };
+            let mut seed = [0u8; 32];
+            rng.fill_bytes(&mut seed);
+            let mut out = run_wake(&cfg, seed);
+            if out.missed > 0 {
+                // a single miss can be a stalled machine: the same scenario must miss again (2 more tries)
+                m.count("W.first_misses_retried");
+                let mut again = 0;
+                for _ in 0..2 {
+                    let o2 = run_wake(&cfg, seed);
+                    if o2.missed > 0 {
+                        again += 1;
+                        out = o2;
+                        break;
+                    }
+                }
+                if again == 0 {
+                    m.count("W.first_misses_not_reproduced");
+                    out.missed = 0;
+                }
+            }
+            m.eval();
+            m.count("W.scenarios");
+            m.count(&format!("W.variant_{}", cfg.variant));
+            m.count_n("W.waiters_served", out.served as u64);
+            m.count_n("W.waiters_timed_out", out.timed_out as u64);
+            m.count_n("W.S4_missed_wakeups", out.missed as u64);
+            note_max("W.max_latency_after_available_us".into(), out.max_latency_after_available_us);
+            for e in &out.errors {
+                m.inconclusive(&format!("wake scenario: {e}"));
+            }
+            // the safety part of the oracle applies to these small histories as well
+            let rep = check(&out.log, cfg.size);
+            merge_counters(m, "W", &rep);
+            for f in &rep.findings {
+                m.violation(f.sig, &format!("[wake scenario] {}", f.what), json!({"level": "W", "shard": s, "i": i, "cfg": format!("{cfg:?}"), "events": log_lines(&out.log, 80)}));
+            }
+            if out.missed > 0 {
+                missed_total.fetch_add(out.missed as u64, std::sync::atomic::Ordering::Relaxed);
+                m.inconclusive(&format!(
+                    "S4 bounded wake-up: {} waiter(s) returned AcquireTimeout more than {} ms after enough current-generation resources had been given back ({cfg:?}, shard {s} scenario {i}); wall-clock observation, not a violation",
+                    out.missed, cfg.slack_ms
+                ));
+            }
+            if s == 0 && i == 0 {
+                m.sample(json!({"wake_scenario": format!("{cfg:?}"), "served": out.served, "timed_out": out.timed_out,
+                    "max_latency_after_available_us": out.max_latency_after_available_us, "events": log_lines(&out.log, 30)}));
+            }
+        }
+    });
+}
+
+// ---------------------------------------------------------------------------------------------
+// L2
+
+fn cfg_json(c: &L2Cfg) -> Value {
+    const KINDS: [&str; 3] = ["yield", "spin", "sleep"];
+    json!({
+        "size": c.size, "workers": c.workers, "ops_per_worker": c.ops_per_worker, "prefilled": c.prefilled,
+        "w_item": c.w_item, "w_drop": c.w_drop, "raw_p256": c.raw_p256, "hold_p256": c.hold_p256,
+        "max_stash": c.max_stash, "work_spin_us": c.work_spin_us, "count_p256": c.count_p256,
+        "reset_p256": c.reset_p256, "refresh_every": c.refresh_every, "refresher_step": c.refresher_step,
+        "delay_table": c.delay.map(|t| t.points.iter().enumerate().map(|(i, p)| json!({
+            "point": POINTS[i], "p256": p.p256, "kind": KINDS[p.kind as usize % 3], "max_us": p.max_us})).collect::<Vec<_>>()),
+    })
+}
+
+fn style_name(c: &L2Cfg) -> &'static str {
+    match (c.w_item > 0, c.w_drop > 0, c.raw_p256 > 0) {
+        (true, false, false) => "item_only",
+        (false, true, false) => "drop_only",
+        (true, true, false) => "item+drop",
+        (false, true, true) => "drop+raw",
+        (true, true, true) => "item+drop+raw",
+        _ => "other",
+    }
+}
+
+/// total operations of run `i`: many short runs, some long ones
+fn l2_total_ops<R: RngCore>(rng: &mut R, tier: Tier) -> u64 {
+    let (lo, hi): (f64, f64) = match below(rng, 10) {
+        0..=4 => (300.0, 10_000.0),
+        5..=8 => (10_000.0, tier.pick(100_000.0, 300_000.0)),
+        _ => (tier.pick(30_000.0, 100_000.0), tier.pick(150_000.0, 1_000_000.0)),
+    };
+    let u = (rng.next_u64() >> 11) as f64 / (1u64 << 53) as f64;
+    (lo * (hi / lo).powf(u)) as u64
+}
+
+struct L2RunId<'a> {
+    label: &'a str,
+    stream: u64,
+    with_delay: bool,
+    tier: Tier,
+}
+
+fn l2_make(mon: &Monitor, id: &L2RunId) -> (L2Cfg, [u8; 32], u64) {
+    let mut rng = mon.rng(id.label, id.stream);
+    let total = l2_total_ops(&mut rng, id.tier);
+    let cfg = gen_l2_cfg(&mut rng, total, id.with_delay, false, 11);
+    let mut seed = [0u8; 32];
+    rng.fill_bytes(&mut seed);
+    (cfg, seed, total)
+}
+
+fn phase_l2(mon: &mut Monitor, phase: &'static str, with_delay: bool, par: usize) {
+    let (shards, per) = match (mon.tier, with_delay) {
+        (Tier::Quick, false) => (12u64, 10u64),
+        (Tier::Quick, true) => (12, 14),
+        (Tier::Thorough, false) => (48, 40),
+        (Tier::Thorough, true) => (48, 60),
+    };
+    let label = if with_delay { "l2-delay" } else { "l2-plain" };
+    let coarse: Mutex<HashSet<u64>> = Mutex::new(HashSet::new());
+    let fine_all: Mutex<HashSet<u64>> = Mutex::new(HashSet::new());
+    let tier = mon.tier;
+    vcore::run_shards(mon, shards, par, |s, m| {
+        let mut my_coarse: HashSet<u64> = HashSet::new();
+        let mut my_fine: HashSet<u64> = HashSet::new();
+        for i in 0..per {
+            let id = L2RunId { label, stream: s * 100_000 + i, with_delay, tier };
+            let (cfg, seed, _total) = l2_make(m, &id);
+            let t0 = std::time::Instant::now();
+            let out = run_l2(&cfg, seed);
+            let run_s = t0.elapsed().as_secs_f64();
+            let rep = check(&out.log, cfg.size);
+            m.eval();
+            m.count(&format!("{phase}.runs"));
+            m.count(&format!("{phase}.runs.style.{}", style_name(&cfg)));
+            m.count(&format!("{phase}.runs.threads.{:02}", cfg.workers + 1));
+            m.count(&format!("{phase}.runs.size.{}", cfg.size));
+            m.count_n("ops.pool_calls", out.ops);
+            m.count_n(&format!("{phase}.pool_calls"), out.ops);
+            m.count_n(&format!("{phase}.events"), out.log.len() as u64);
+            merge_counters(m, phase, &rep);
+            for (k, p) in POINTS.iter().enumerate() {
+                m.count_n(&format!("{phase}.hook_hits.{p}"), out.hook.hits[k]);
+                m.count_n(&format!("{phase}.hook_delays.{p}"), out.hook.delays[k]);
+            }
+            if out.hook.unknown_points > 0 {
+                m.count_n(&format!("{phase}.hook_hits.UNKNOWN_POINT"), out.hook.unknown_points);
+            }
+            for e in &out.errors {
+                m.inconclusive(&format!("harness/pool error in an {phase} run (stream {}): {e}", id.stream));
+            }
+            let mut contended = 0u64;
+            for w in &rep.windows {
+                my_fine.insert(w.fine);
+                my_coarse.insert(w.coarse);
+                if w.foreign_inside > 0 {
+                    m.count(&format!("{phase}.windows.with_foreign_events_inside"));
+                }
+                if w.stale_give_backs > 0 {
+                    m.count(&format!("{phase}.windows.followed_by_stale_give_backs"));
+                }
+                if w.foreign_inside > 0 || w.stale_give_backs > 0 {
+                    contended += 1;
+                    let mut key = *b"L2|\0\0\0\0\0\0\0\0";
+                    key[3..].copy_from_slice(&w.fine.to_le_bytes());
+                    m.nontrivial(&key);
+                }
+            }
+            m.count_n(&format!("{phase}.windows"), rep.windows.len() as u64);
+            m.count_n(&format!("{phase}.windows.nontrivial"), contended);
+            // violations: one per signature per run
+            let mut by_sig: BTreeMap<&'static str, (usize, &Finding)> = BTreeMap::new();
+            for f in &rep.findings {
+                by_sig.entry(f.sig).and_modify(|e| e.0 += 1).or_insert((1, f));
+            }
+            for (sig, (n, f)) in &by_sig {
+                m.count(&format!("{phase}.runs_with.{sig}"));
+                m.count(&format!("{phase}.runs_with.{sig}.style.{}", style_name(&cfg)));
+                let total_class = rep.get(&format!("S1.class.{sig}")) + rep.get(&format!("S3.class.{sig}"));
+                m.violation(
+                    sig,
+                    &format!(
+                        "[{phase} {} threads, styles {}, {} pool calls, {} distinct stale resources / {} stale serves of this class in the run] {}",
+                        cfg.workers + 1, style_name(&cfg), out.ops, n, total_class, f.what
+                    ),
+                    json!({"level": "L2", "phase": phase, "label": label, "stream": id.stream, "with_delay": with_delay,
+                        "tier": tier.as_str(), "cfg": cfg_json(&cfg), "excerpt": f.excerpt,
+                        "note": "L2 runs depend on the OS scheduler: --replay re-runs this configuration repeatedly until the same signature is observed again"}),
+                );
+            }
+            if s == 0 && m.wants_sample() && m.counter("samples.l2") < 1 && !rep.windows.is_empty() && cfg.workers >= 2 {
+                m.count("samples.l2");
+                // the events of the first refresh window with foreign events inside
+                let w = rep.windows.iter().find(|w| w.foreign_inside > 0);
+                let lines: Vec<String> = match w {
+                    Some(w) => {
+                        let b = out.log.iter().position(|e| e.kind == Kind::RefSet && e.gen == w.g).unwrap_or(0).saturating_sub(6);
+                        out.log[b..].iter().take(36).map(|e| e.to_string()).collect()
+                    }
+                    None => log_lines(&out.log, 36),
+                };
+                m.sample(json!({"phase": phase, "stream": id.stream, "cfg": cfg_json(&cfg), "pool_calls": out.ops, "events_total": out.log.len(),
+                    "refreshes": rep.get("refreshes"), "run_seconds": run_s, "window_events": lines}));
+            }
+        }
+        coarse.lock().unwrap().extend(my_coarse);
+        fine_all.lock().unwrap().extend(my_fine);
+    });
+    mon.extra.insert(format!("{phase}_distinct_refresh_window_orders_fine"), json!(fine_all.lock().unwrap().len()));
+    mon.extra.insert(format!("{phase}_distinct_refresh_window_orders_coarse"), json!(coarse.lock().unwrap().len()));
+}
+
+// ---------------------------------------------------------------------------------------------
+// L3 (thorough only): the same small workload under Miri, one process per Miri seed
+
+fn phase_l3(mon: &mut Monitor) {
+    let dir = std::path::Path::new(env!("CARGO_MANIFEST_DIR")).join("l3");
+    let seeds: u64 = std::env::var("VERIF_L3_SEEDS").ok().and_then(|s| s.parse().ok()).unwrap_or(96);
+    let target = std::env::var("VERIF_L3_TARGET").unwrap_or_else(|_| "/tmp/mon-pool-l3-target".into());
+    let run = |seed: u64| -> Result<(String, bool), String> {
+        let out = std::process::Command::new("cargo")
+            .args(["+nightly", "miri", "run", "--offline", "-q", "-p", "runner", "--", "--runs", "3", "--seed"])
+            .arg(seed.to_string())
+            .current_dir(&dir)
+            .env("CARGO_TARGET_DIR", &target)
+            .env("RUSTFLAGS", "--cfg mithril_verif")
+            .env("MIRIFLAGS", format!("-Zmiri-seed={seed} -Zmiri-preemption-rate=0.05"))
+            .env_remove("RUSTUP_TOOLCHAIN")
+            .output()
+            .map_err(|e| format!("cannot spawn cargo: {e}"))?;
+        let so = String::from_utf8_lossy(&out.stdout).to_string();
+        let se = String::from_utf8_lossy(&out.stderr).to_string();
+        if !so.contains("L3-DONE") {
+            return Err(format!("status {:?}; stderr tail: {}", out.status.code(), se.lines().rev().take(12).collect::<Vec<_>>().into_iter().rev().collect::<Vec<_>>().join(" | ")));
+        }
+        let ub = se.contains("Undefined Behavior") || se.contains("Data race detected");
+        Ok((so + if ub { &se } else { "" }, ub))
+    };
+    // seed 0 first (builds), then the rest in parallel
+    let first = run(0);
+    if let Err(e) = &first {
+        mon.extra.insert("l3_miri".into(), json!(format!("skipped: {e}")));
+        mon.count("L3.skipped");
+        println!("[C18] L3 (Miri) skipped: {e}");
+        return;
+    }
+    let results: Mutex<Vec<(u64, Result<(String, bool), String>)>> = Mutex::new(vec![(0, first)]);
+    let next = std::sync::atomic::AtomicU64::new(1);
+    std::thread::scope(|s| {
+        for _ in 0..vcore::default_threads() {
+            s.spawn(|| loop {
+                let i = next.fetch_add(1, std::sync::atomic::Ordering::SeqCst);
+                if i >= seeds {
+                    break;
+                }
+                let r = run(i);
+                results.lock().unwrap().push((i, r));
+            });
+        }
+    });
+    let mut results = results.into_inner().unwrap();
+    results.sort_by_key(|r| r.0);
+    let mut orders: HashSet<String> = HashSet::new();
+    for (seed, r) in results {
+        match r {
+            Err(e) => {
+                mon.count("L3.miri_processes_failed");
+                mon.inconclusive(&format!("L3 Miri seed {seed}: {e}"));
+            }
+            Ok((text, ub)) => {
+                mon.count("L3.miri_seeds_run");
+                mon.eval();
+                if ub {
+                    mon.violation("C18 Miri reported undefined behaviour or a data race in the pool workload", &format!("Miri seed {seed}"), json!({"level": "L3", "miri_seed": seed, "output": text}));
+                }
+                for line in text.lines() {
+                    if let Some(rest) = line.strip_prefix("L3-COUNT ") {
+                        if let Some((k, v)) = rest.split_once('=') {
+                            if let Ok(v) = v.trim().parse::<u64>() {
+                                mon.count_n(&format!("L3.{}", k.trim()), v);
+                            }
+                        }
+                    } else if let Some(rest) = line.strip_prefix("L3-ORDER ") {
+                        for h in rest.split_whitespace() {
+                            if orders.insert(h.to_string()) {
+                                mon.nontrivial_str(&format!("L3|{h}"));
+                            }
+                        }
+                    } else if let Some(rest) = line.strip_prefix("L3-FINDING ") {
+                        let (sig, what) = rest.split_once(" || ").unwrap_or((rest, ""));
+                        mon.count(&format!("L3.findings.{sig}"));
+                        mon.violation(sig, &format!("[L3 Miri seed {seed}] {what}"), json!({"level": "L3", "miri_seed": seed,
+                            "cmd": format!("cd {} && MIRIFLAGS='-Zmiri-seed={seed} -Zmiri-preemption-rate=0.05' RUSTFLAGS='--cfg mithril_verif' cargo +nightly miri run --offline -p runner -- --runs 3 --seed {seed}", dir.display())}));
+                    }
+                }
+            }
+        }
+    }
+    mon.extra.insert("l3_miri".into(), json!(format!("{seeds} Miri seeds, one process each")));
+    mon.extra.insert("L3_distinct_refresh_window_orders_fine".into(), json!(orders.len()));
+}
+
+// ---------------------------------------------------------------------------------------------
+// replay
+
+fn replay(mon: &mut Monitor, path: &std::path::Path) {
+    let txt = match std::fs::read_to_string(path) {
+        Ok(t) => t,
+        Err(e) => {
+            mon.inconclusive(&format!("cannot read replay file: {e}"));
+            return;
+        }
+    };
+    let doc: Value = match serde_json::from_str(&txt) {
+        Ok(v) => v,
+        Err(e) => {
+            mon.inconclusive(&format!("cannot parse replay file: {e}"));
+            return;
+        }
+    };
+    let want = doc["signature"].as_str().unwrap_or("").to_string();
+    let r = &doc["replay"];
+    match r["level"].as_str() {
+        Some("L1") => {
+            let ops: Option<Vec<Op>> = r["ops"].as_array().map(|a| a.iter().filter_map(|o| o.as_str().and_then(Op::parse)).collect());
+            let Some(ops) = ops else {
+                mon.inconclusive("replay: no ops");
+                return;
+            };
+            let case = L1Case { size: r["size"].as_u64().unwrap_or(1) as usize, prefilled: r["prefilled"].as_bool().unwrap_or(false), ops };
+            let out = run_l1(&case);
+            for e in &out.log {
+                println!("  {e}");
+            }
+            eval_l1(mon, "replay", &case, false, true);
+        }
+        Some("L2") => {
+            let with_delay = r["with_delay"].as_bool().unwrap_or(false);
+            let tier = if r["tier"].as_str() == Some("thorough") { Tier::Thorough } else { Tier::Quick };
+            let label = r["label"].as_str().unwrap_or("l2-plain").to_string();
+            let id = L2RunId { label: &label, stream: r["stream"].as_u64().unwrap_or(0), with_delay, tier };
+            if let Some(seed) = doc["seed"].as_u64() {
+                mon.seed = seed;
+            }
+            let (cfg, seed, _) = l2_make(mon, &id);
+            println!("replaying L2 configuration {}", cfg_json(&cfg));
+            set_process_hook(with_delay);
+            let mut hit = false;
+            for attempt in 0..60 {
+                let out = run_l2(&cfg, seed);
+                let rep = check(&out.log, cfg.size);
+                mon.eval();
+                merge_counters(mon, "replay", &rep);
+                if let Some(f) = rep.findings.iter().find(|f| want.is_empty() || f.sig == want) {
+                    println!("attempt {attempt}: reproduced: {}", f.what);
+                    for l in &f.excerpt {
+                        println!("  {l}");
+                    }
+                    mon.violation(f.sig, &f.what, r.clone());
+                    hit = true;
+                    break;
+                }
+            }
+            if !hit {
+                println!("not reproduced in 60 attempts (scheduler dependent)");
+            }
+        }
+        _ => mon.inconclusive("replay: only L1 and L2 witnesses can be replayed by this binary (L3: use the command stored in the file)"),
+    }
+    // replay runs are about one case: make the evidence minimum irrelevant
+    mon.nontrivial_str("replay-a");
+    mon.nontrivial_str("replay-b");
+}
